@@ -224,7 +224,7 @@ def _ground(case, rng, shape, base=None, fill=None):
         A = gen.sparsify(rng, gen.normals(rng, shape), fill)
     H["tensor"] = gen.mk_tensor(ttb, np.array(A, dtype=float), case.get("hist", "ctor"))
     nnz = int(np.count_nonzero(A))
-    H["sptensor"] = gen.mk_sptensor(ttb, A, gen.stored_order(rng, nnz, "shuffled"))
+    H["sptensor"] = gen.mk_sptensor(ttb, A, gen.stored_order(rng, nnz, "shuffled"), hist=("grown-region" if case.get("hist") == "grown" else None))
     return np.array(A, dtype=float), H
 
 
